@@ -109,6 +109,9 @@ type XClient struct {
 	// heartbeat requests this client sent itself (id -> when) and the acknowledgements it got for them
 	HBSent  map[uint64]time.Duration
 	HBAcked map[uint64]int
+	// a frame of this client is on the wire in two parts: whatever else it wants to send waits for the second
+	midFrame bool
+	deferred []*ReqRec
 }
 
 // SendHB sends a heartbeat request of the client's own (MOSN answers those itself).
@@ -133,10 +136,39 @@ func (x *XClient) SendReq(r *ReqRec) {
 	if x.Conn == nil || x.Conn.PeerDone() {
 		return
 	}
+	if x.midFrame {
+		x.deferred = append(x.deferred, r)
+		return
+	}
 	r.ConnID = x.Conn.ID
 	r.Client = x.Name
 	r.SentAt = x.S.Now()
 	x.byID[r.ID] = r
+	if r.Extra["pause_at"] != "" && len(r.Frame) > 2 {
+		// the frame arrives in two parts with a long silence in between (longer than MOSN's read timeout)
+		var at, secs int
+		fmt.Sscan(r.Extra["pause_at"], &at)
+		fmt.Sscan(r.Extra["pause_s"], &secs)
+		at = 1 + at%(len(r.Frame)-1)
+		c := x.Conn
+		c.Send(r.Frame[:at])
+		x.midFrame = true
+		x.S.Fault("w:pause_inside_frame")
+		x.S.Logf("client %s send req#%d id=%d: first %d of %dB, the rest %ds later", x.Name, r.Idx, r.ID, at, len(r.Frame), secs)
+		x.S.After(time.Duration(secs)*time.Second, fmt.Sprintf("send:rest:req#%d", r.Idx), func() {
+			if !c.PeerDone() {
+				r.SentAt = x.S.Now()
+				c.Send(r.Frame[at:])
+			}
+			x.midFrame = false
+			d := x.deferred
+			x.deferred = nil
+			for _, q := range d {
+				x.SendReq(q)
+			}
+		})
+		return
+	}
 	x.Conn.Send(r.Frame)
 	x.S.Logf("client %s send req#%d id=%d %dB oneway=%v", x.Name, r.Idx, r.ID, len(r.Frame), r.Oneway)
 }
